@@ -1,16 +1,17 @@
 use crate::engine::{Ctx, PropertyReport};
 
 pub mod c01;
+pub mod c02;
 
 pub struct Entry {
     pub id: &'static str,
     pub run: fn(&Ctx) -> PropertyReport,
 }
 
-pub const ENTRIES: &[Entry] = &[Entry {
-    id: "C01",
-    run: c01::run,
-}];
+pub const ENTRIES: &[Entry] = &[
+    Entry { id: "C01", run: c01::run },
+    Entry { id: "C02", run: c02::run },
+];
 
 pub fn lookup(id: &str) -> Option<&'static Entry> {
     ENTRIES.iter().find(|e| e.id == id)
